@@ -327,6 +327,8 @@ def oracle_c04(line, m, impl, model):
 
 def oracle_time(line, m, impl, model):
     want = m.get("want")
+    if impl.get("evalt") == "PANIC":
+        return "the expiry evaluator panicked (C05: the decision is total; an unparsable or out-of-range `to` is not expired)"
     if want is None:
         return None
     got = impl.get("evalt")
@@ -575,6 +577,11 @@ def oracle_c17(line, m, impl, model):
     l = parse_json_items(impl["list_json"])
     if [i for i in la if i["current_status"] == "Ready"] != l:
         return "Ready items of list_all differ from the plain list"
+    # (also for every source: C17_list_all_regions) a Pending region that lies inside a Ready region
+    # (starts at or after its first byte and ends before its end) is not listed
+    for a, b, st in got:
+        if st == "P" and any(ra <= a and b < rb for ra, rb, rst in got if rst == "R"):
+            return f"a Pending region ({a}, {b}) lying inside a Ready region is listed"
     c = parse_dcase(line)
     r = ref_of(c)
     if r.abstain or m.get("mutated") or m.get("stream") == "exhaustive" or not in_list_domain(c, r):
@@ -593,6 +600,22 @@ def oracle_c17(line, m, impl, model):
     if m.get("strict", True) and got != want:
         return f"list_all regions {got[:8]} differ from Ready + outstanding Pending {want[:8]}"
     return None
+
+
+def chrono_limit_docs(prefix="cl"):
+    """documents whose `to` value sits on the ends of chrono's range, with offsets that push the instant
+    over them: never a panic, the element is simply not expired (or expired) - through clean and both lists"""
+    cases, meta = [], {}
+    k = 0
+    for to in ("+262142-12-31 23:59:59", "-262143-01-01 00:00:00", "+262142-12-31 00:00:00", "-262143-12-31 23:59:59", "+262143-01-01 00:00:00"):
+        for off in ("+00:00", "-01:00", "+09:00", "-23:59", "+23:59", "-0001", "+0001"):
+            for ds, de in (("<", ">"), ("<!-- <", "> -->")):
+                src = f'a\n{ds}tl to="{to}"{de}\nbody\n{ds}/tl{de}\nb\n'
+                cid = f"{prefix}{k}"
+                k += 1
+                cases.append(G.dcase(cid, ds, de, src, G.Cfg(offset=off, now=G.NOW)))
+                meta[cid] = {"stream": "chrono-limits", "mutated": True}
+    return cases, meta
 
 
 def many_comment_cases(rng, n, prefix="mc"):
@@ -653,7 +676,7 @@ def wrapper_tag_cases(rng, n, prefix="wt"):
         o2, c2 = kinds[k2]
         lines = [rng.choice(["", "a", "fn main() {"])]
         lines.append(ind + tag(rng.choice([f"tl {e} unwrap-block", 'rm name="x" unwrap-block'])))
-        shape = rng.randrange(8)
+        shape = rng.randrange(10)
         u_close = None
         # opening wrapper line
         if shape in (0, 1, 4):
@@ -680,6 +703,9 @@ def wrapper_tag_cases(rng, n, prefix="wt"):
         elif shape == 4:
             lines.append(ind + "  " + tag(o2) + " x(); " + tag(c2))
             lines.append(ind + "}")
+        elif shape in (8, 9):
+            # an element that starts at the very first byte of the closing wrapper line
+            lines.append(tag(o2) + " x(); " + tag(c2) + " }" if shape == 8 else tag(o2) + "x" + tag(c2))
         else:
             lines.append(ind + "}")
         closer = "/tl" if "tl " in lines[1] else "/rm"
@@ -721,6 +747,18 @@ def degenerate_unwrap_cases(rng, tier, prefix="u"):
                         k += 1
                         cases.append(G.dcase(cid, ds, de, src, cfg))
                         meta[cid] = {"stream": "degenerate-unwrap"}
+                        if n <= 3 and (pre, post) in (("a\n", "\nb"), ("", "")):
+                            # the same with a closing tag that spans lines, and with a valued unwrap-block attribute
+                            for closer in ("/" + tag.split(" ")[0] + "\n", "/" + tag.split(" ")[0] + " \n "):
+                                cid = f"{prefix}{k}"
+                                k += 1
+                                cases.append(G.dcase(cid, ds, de, pre + ds + tag + de + between + ds + closer + de + post, cfg))
+                                meta[cid] = {"stream": "degenerate-unwrap"}
+                            cid = f"{prefix}{k}"
+                            k += 1
+                            cases.append(G.dcase(cid, ds, de, pre + ds + tag.replace("unwrap-block", 'unwrap-block="true"') + de + between
+                                                 + ds + "/" + tag.split(" ")[0] + de + post, cfg))
+                            meta[cid] = {"stream": "degenerate-unwrap"}
     return cases, meta
 
 
@@ -761,7 +799,15 @@ def gen_front(rng, tier, pairs=None, exh_len=None):
             ex2m[f"y{k}"] = {"stream": "exhaustive"}
             k += 1
     docs = doc_cases(rng, n, "d", p_mut=0.4, safe=False)
-    return merge(corpus_cases(), ex, (ex2c, ex2m), docs)
+    # random strings over characters on the boundaries of the UTF-8 byte classes, delimiters and tag pieces
+    bc, bm = [], {}
+    for i in range(600 if tier == "quick" else 8000):
+        ds, de = rng.choice(pairs)
+        pool = G.BOUNDARY_CHARS + [ds, de, ds, de, " ", "\n", "r", "/r", "a=\"", "'", "skip"]
+        s = "".join(rng.choice(pool) for _ in range(rng.randint(1, 14)))
+        bc.append(G.dcase(f"u{i}", ds, de, s, G.Cfg()))
+        bm[f"u{i}"] = {"stream": "unicode-boundaries", "mutated": True}
+    return merge(corpus_cases(), ex, (ex2c, ex2m), docs, (bc, bm), chrono_limit_docs())
 
 
 def gen_docs(rng, tier, n_quick=2500, n_thorough=40000, **kw):
@@ -772,7 +818,8 @@ def gen_docs(rng, tier, n_quick=2500, n_thorough=40000, **kw):
                  control_char_cases(rng, 60 if tier == "quick" else 1000))
 
 
-TAG_VALUES = ["", "v", "a b", "x=y", "it's", 'say "hi"', "skip", "unwrap-block", "a\nb", "<", "/* <", "to", "あ", "  ", "name=x skip"]
+TAG_VALUES = ["", "v", "a b", "x=y", "it's", 'say "hi"', "skip", "unwrap-block", "a\nb", "<", "/* <", "to", "あ", "  ", "name=x skip",
+              "C:\\docs\\", "\\", "a\\", "期限切れ", "🧹", "éé", "\\\\"]
 TAG_SEPS = [" ", "  ", "\n", "\n  ", " \n * "]
 
 
@@ -1036,6 +1083,10 @@ def gen_c06(rng, tier):
                 (tl, [e, 'c="x"', "skip"], False),
                 (tl, [e, 'c="skip"'], True),
                 (tl, ["skip='true'", e], False),
+                (tl, [e, 'c="C:\\docs\\"', "skip"], False),
+                (tl, [e, "c='x\\'", "skip"], False),
+                (tl, ['c="期限切れ"', e], True),
+                (tl, ["c='🧹'", e, "skip"], False),
                 (tl, [e, 'skip=""'], False),
                 (tl, [e, "c='a skip b'"], True),
                 (tl, [e, "skipx"], True),
